@@ -12,6 +12,16 @@ BAD_NAMES = ["1abc", "a-b", "a b", "", "-abc", ".abc", " abc", "+abc", "#abc", "
 GOOD_NAMES = ["_abc", "a1", "a_b", "A9_"]
 
 
+# every C++23 keyword and alternative token ([lex.key] tables), written down independently of sbeppc's list
+ALL_KEYWORDS = """alignas alignof asm auto bool break case catch char char8_t char16_t char32_t class concept const consteval
+constexpr constinit const_cast continue co_await co_return co_yield decltype default delete do double dynamic_cast else enum
+explicit export extern false float for friend goto if inline int long mutable namespace new noexcept nullptr operator private
+protected public register reinterpret_cast requires return short signed sizeof static static_assert static_cast struct switch
+template this thread_local throw true try typedef typeid typename union unsigned using virtual void volatile wchar_t while
+and and_eq bitand bitor compl not not_eq or or_eq xor xor_eq""".split()
+KEYWORD_TWINS = ["Class", "INT", "int_", "_new", "xor1", "co_await_"]      # not keywords: case differs / longer
+
+
 def _name_cases(n_bad=None):
     """(name, class label, verdict)"""
     out = [(k, "keyword", "reject") for k in KEYWORDS[:2]]
@@ -178,6 +188,19 @@ def edits(base):
                     s = variant()
                     getattr(_find_level(s, label), kind)[0].name = kw
                     yield "invalid-name:%s:%s" % (kind[:-1] if kind != "data" else "data", cls), "%s %r" % (label, kw), verdict, s
+
+    # ---- every keyword once, rotating over the name sites of the first message level (+ non-keyword twins)
+    first = [(label, lv) for label, lv in _levels(base) if "." not in label][:1]
+    for label, lv in first:
+        kinds_here = [k for k in ("fields", "groups", "data") if getattr(lv, k)]
+        for i, kw in enumerate(ALL_KEYWORDS + KEYWORD_TWINS):
+            if not kinds_here:
+                break
+            kind = kinds_here[i % len(kinds_here)]
+            s = variant()
+            getattr(_find_level(s, label), kind)[0].name = kw
+            yield "invalid-name:%s:%s" % (kind[:-1] if kind != "data" else "data", "every-keyword" if kw in ALL_KEYWORDS else "keyword-twin"), \
+                "%s %r" % (label, kw), ("reject" if kw in ALL_KEYWORDS else "accept"), s
 
     # ---- composite member offsets
     for path, c in _composites(base):
@@ -417,7 +440,8 @@ def edits(base):
             s = variant()
             setter(s, v)
             yield "header-value-not-representable:%s" % member, "%s=%d" % (member, v), verdict, s
-    for pk, verdict in (("class", "reject"), ("a.b", "accept-or-reject"), ("1x", "reject"), ("ok_name", "accept")):
+    for pk, verdict in (("class", "reject"), ("a.b", "accept-or-reject"), ("1x", "reject"), ("ok_name", "accept"), ("std", "reject"),
+                        ("posix", "reject"), ("stdx", "accept"), ("-x", "reject"), ("x-", "reject"), ("requires", "reject")):
         s = variant()
         s.package = pk
         yield "invalid-name:schema-package", repr(pk), verdict, s
